@@ -37,6 +37,7 @@ type Model struct {
 	firstSeen [2][NTargets]bool
 	cancelled [2][NTargets]bool // the builder's current mocker for t carries the cancelled flag
 	zombie    [2][NTargets]bool // re-applied through the kept handle after a Cancel/Reset
+	outerSeen [2]bool           // the builder has been asked for Struct(&S{}) (a struct-level handle exists)
 }
 
 // Resolve maps the g2 targets according to the builder's pending override.
@@ -64,6 +65,9 @@ func (m *Model) Enabled(op Op) bool {
 	c := &m.Cfg[op.B][t]
 	if op.Kept && (!m.KeptOK[op.B][op.T] || op.K > KApplyO || op.Retained) {
 		return false
+	}
+	if op.Outer && (op.Kept || op.Retained || (op.T != TM && op.T != TLm) || !m.outerSeen[op.B]) {
+		return false // the struct-level handle exists once Struct(..) has been asked for
 	}
 	if !op.Kept && m.zombie[op.B][op.T] {
 		// after a re-apply through a kept, cancelled handle a fresh lookup would create a second
@@ -123,8 +127,13 @@ func (m *Model) Do(op Op) {
 		return
 	}
 	t := m.Resolve(op)
+	if op.T == TM || op.T == TLm {
+		m.outerSeen[op.B] = true
+	}
 	if !op.Retained && !op.Kept {
-		m.PkgOver[op.B] = false // every lookup consumes the override
+		if !op.Outer {
+			m.PkgOver[op.B] = false // every lookup through the builder consumes the override
+		}
 		if !m.firstSeen[op.B][op.T] {
 			m.firstSeen[op.B][op.T], m.KeptOK[op.B][op.T] = true, true
 		} else if m.cancelled[op.B][op.T] {
